@@ -167,6 +167,42 @@ func (c *VCheck) CheckLatest(ids []string) {
 			}
 		}
 	}
+	// lookups scoped to several datasets, named in creation order and in the opposite order: the same merge
+	var liveNames []string
+	for _, md := range h.M.LiveInOrder() {
+		liveNames = append(liveNames, md.Name)
+	}
+	if len(liveNames) >= 2 {
+		rev := make([]string, len(liveNames))
+		for i, n := range liveNames {
+			rev[len(liveNames)-1-i] = n
+		}
+		for _, order := range [][]string{liveNames, rev} {
+			var real []string
+			for _, n := range order {
+				real = append(real, h.DsName(n))
+			}
+			for _, id := range ids {
+				c.Checks++
+				e, err := h.W.Store.GetEntity(h.URI(id), real, true)
+				if err != nil {
+					c.fail(fmt.Sprintf("C01:multi-scope-error:%v:%s", order, id), "lookup scoped to several datasets failed: "+err.Error(), nil)
+					continue
+				}
+				want, parts, _ := h.M.Merged(id, order, -1)
+				if parts == 0 {
+					continue // nothing live in the scope: covered by the single-dataset lookups
+				}
+				if e == nil {
+					c.fail(fmt.Sprintf("C01:multi-scope-missing:%v:%s", order, id), fmt.Sprintf("lookup of %s scoped to %v returns nothing; want merge %s", id, order, want), nil)
+					continue
+				}
+				if got := h.AbsContent(e); !contentEq(got, want) {
+					c.fail(fmt.Sprintf("C01:multi-scope-merge:%v:%s", order, id), fmt.Sprintf("lookup of %s scoped to %v returns %s; merge of the latest non-deleted versions in those datasets is %s", id, order, got, want), nil)
+				}
+			}
+		}
+	}
 	// unscoped lookups: merge of per-dataset latest non-deleted versions
 	for _, id := range ids {
 		if c.ScopedOnly {
